@@ -290,20 +290,20 @@ package db
 
 // (bytes.Compare is antisymmetric with values in {-1, 0, 1}; with the transitivity the engine states, a total order)
 //@ assume-global[bytes-compare-is-antisymmetric] forall u int, v int :: bytescmpv(u, v) == -bytescmpv(v, u) && -1 <= bytescmpv(u, v) && bytescmpv(u, v) <= 1
-//@ spec live(mi *mergedIterator, j int) bool = mi.status[j] != iteratorFinished
+//@ spec liveLayer(mi *mergedIterator, j int) bool = mi.status[j] != iteratorFinished
 //@ func mergedIterator.step(mi) -> (ok)
 //@   attr uses bytes-compare-is-antisymmetric
 //@   requires mi != nil && len(mi.status) == len(mi.iterators) && mi.cmp != nil && mi.status.arr != mi.iterators.arr
 //@   requires forall j int :: 0 <= j && j < len(mi.iterators) ==> mi.iterators[j] != nil
 //@   requires mi.current == noCurrent || (0 <= mi.current && mi.current < len(mi.iterators))
-//@   ensures[nothing-left-iff-every-layer-finished] !ok && mi.err == nil ==> mi.current == noCurrent && (forall j int :: 0 <= j && j < len(mi.iterators) ==> !live(mi, j))
-//@   ensures[stands-on-a-live-layer] ok ==> 0 <= mi.current && mi.current < len(mi.iterators) && live(mi, mi.current)
-//@   ensures[smallest-key-first] ok ==> (forall j int :: 0 <= j && j < len(mi.iterators) && live(mi, j) ==> bytescmpv(mi.iterators[mi.current].curKey, mi.iterators[j].curKey) <= 0)
-//@   ensures[newest-layer-wins-equal-keys] ok ==> (forall j int :: 0 <= j && j < mi.current && live(mi, j) ==> bytescmpv(mi.iterators[j].curKey, mi.iterators[mi.current].curKey) > 0)
+//@   ensures[nothing-left-iff-every-layer-finished] !ok && mi.err == nil ==> mi.current == noCurrent && (forall j int :: 0 <= j && j < len(mi.iterators) ==> !liveLayer(mi, j))
+//@   ensures[stands-on-a-live-layer] ok ==> 0 <= mi.current && mi.current < len(mi.iterators) && liveLayer(mi, mi.current)
+//@   ensures[smallest-key-first] ok ==> (forall j int :: 0 <= j && j < len(mi.iterators) && liveLayer(mi, j) ==> bytescmpv(mi.iterators[mi.current].curKey, mi.iterators[j].curKey) <= 0)
+//@   ensures[newest-layer-wins-equal-keys] ok ==> (forall j int :: 0 <= j && j < mi.current && liveLayer(mi, j) ==> bytescmpv(mi.iterators[j].curKey, mi.iterators[mi.current].curKey) > 0)
 //@   loop 1
 //@     invariant mi.err == nil && len(mi.status) == len(mi.iterators) && mi.iterators.arr == old(mi.iterators.arr) && mi.iterators.off == old(mi.iterators.off) && len(mi.iterators) == old(len(mi.iterators)) && mi.status.arr == old(mi.status.arr) && mi.status.off == old(mi.status.off) && mi.cmp == old(mi.cmp) && mi.status.arr != mi.iterators.arr
 //@     invariant forall j int :: 0 <= j && j < len(mi.iterators) ==> mi.iterators[j] != nil
 //@   loop 2
 //@     invariant mi.err == nil && len(mi.status) == len(mi.iterators) && mi.cmp != nil
-//@     invariant bestIndex == noCurrent || (0 <= bestIndex && bestIndex <= rangeindex#2 && live(mi, bestIndex) && bestKey != nil && bytesval(bestKey) == mi.iterators[bestIndex].curKey)
-//@     invariant forall j int :: 0 <= j && j <= rangeindex#2 && live(mi, j) ==> bestIndex != noCurrent && bytescmpv(bytesval(bestKey), mi.iterators[j].curKey) <= 0 && (j < bestIndex ==> bytescmpv(mi.iterators[j].curKey, bytesval(bestKey)) > 0)
+//@     invariant bestIndex == noCurrent || (0 <= bestIndex && bestIndex <= rangeindex#2 && liveLayer(mi, bestIndex) && bestKey != nil && bytesval(bestKey) == mi.iterators[bestIndex].curKey)
+//@     invariant forall j int :: 0 <= j && j <= rangeindex#2 && liveLayer(mi, j) ==> bestIndex != noCurrent && bytescmpv(bytesval(bestKey), mi.iterators[j].curKey) <= 0 && (j < bestIndex ==> bytescmpv(mi.iterators[j].curKey, bytesval(bestKey)) > 0)
